@@ -24,7 +24,7 @@ type cuOp struct {
 	kind    string // update q
 	prof    int
 	host    string
-	bump    int  // seconds added to UpdateTime by an update
+	bump    int64 // nanoseconds added to UpdateTime by an update
 	enabled bool // new enabled flag of an update
 	doms    []string
 	old     bool // query with the previous configuration of the profile (an in-flight request)
@@ -32,14 +32,22 @@ type cuOp struct {
 
 func (op cuOp) String() string {
 	if op.kind == "update" {
-		return fmt.Sprintf("update c%d +%ds enabled=%v %s", op.prof, op.bump, op.enabled, strings.Join(op.doms, " "))
+		return fmt.Sprintf("update c%d +%dns enabled=%v %s", op.prof, op.bump, op.enabled, strings.Join(op.doms, " "))
 	}
 
 	return fmt.Sprintf("q c%d %s old=%v", op.prof, op.host, op.old)
 }
 
+// cuBase is the UpdateTime of the initial configurations, in nanoseconds.
+const cuBase int64 = 1_700_000_000_000_000_000
+
+// cuUnits are the granularities of UpdateTime steps: the storage compares
+// instants, so an update one nanosecond later is a later version just like one
+// a second or an hour later.
+var cuUnits = []int64{1, 1, 999, 1_000, 1_000_000, 999_999_999, 1_000_000_000, 3_600_000_000_000}
+
 type cuConf struct {
-	upd     int64
+	upd     int64 // nanoseconds since the epoch
 	ver     int
 	doms    []string
 	enabled bool
@@ -51,7 +59,15 @@ func (c cuConf) toConf(id string) *filter.ConfigCustom {
 		rules = append(rules, filter.RuleText(rule{kind: "B", dom: d}.text(c.ver)))
 	}
 
-	return &filter.ConfigCustom{ID: id, UpdateTime: time.Unix(c.upd, 0), Rules: rules, Enabled: c.enabled}
+	// Alternate the location: the instant is what counts.
+	t := time.Unix(0, c.upd)
+	if c.ver%2 == 0 {
+		t = t.In(time.FixedZone("x", 3*3600))
+	} else {
+		t = t.UTC()
+	}
+
+	return &filter.ConfigCustom{ID: id, UpdateTime: t, Rules: rules, Enabled: c.enabled}
 }
 
 func genCU(rng *rand.Rand, versioned bool, length int) (ops []cuOp) {
@@ -64,9 +80,10 @@ func genCU(rng *rand.Rand, versioned bool, length int) (ops []cuOp) {
 					doms = append(doms, d)
 				}
 			}
-			bump := 1 + rng.IntN(3)
+			unit := cuUnits[rng.IntN(len(cuUnits))]
+			bump := int64(1+rng.IntN(3)) * unit
 			if !versioned && rng.IntN(2) == 0 {
-				bump = -rng.IntN(2)
+				bump = -int64(rng.IntN(2)) * unit
 			}
 			ops = append(ops, cuOp{kind: "update", prof: p, bump: bump, enabled: rng.IntN(6) != 0, doms: doms})
 		} else {
@@ -93,6 +110,42 @@ func customCampaign(o *hlib.Opts, r *hlib.Result, m *hlib.Model) {
 			runCU(r, m, versioned, capn, min, true)
 		}
 	}
+	if o.Thorough() {
+		exhaustiveCU(r, m)
+	}
+}
+
+// exhaustiveCU enumerates every versioned history of length ≤ 4 over a small
+// alphabet: updates of one profile that are one nanosecond or one second later,
+// a disabling update, queries by the updated and by another profile that
+// competes for the single cache slot.
+func exhaustiveCU(r *hlib.Result, m *hlib.Model) {
+	alphabet := []cuOp{
+		{kind: "update", prof: 0, bump: 1, enabled: true, doms: []string{"b.example.com"}},
+		{kind: "update", prof: 0, bump: 1_000_000_000, enabled: true, doms: []string{"a.example.com", "c.example.org"}},
+		{kind: "update", prof: 0, bump: 999, enabled: false, doms: []string{"a.example.com"}},
+		{kind: "q", prof: 0, host: "www.a.example.com"},
+		{kind: "q", prof: 0, host: "b.example.com"},
+		{kind: "q", prof: 1, host: "b.example.com"},
+	}
+	n := 0
+	for length := 1; length <= 4; length++ {
+		total := 1
+		for j := 0; j < length; j++ {
+			total *= len(alphabet)
+		}
+		for code := 0; code < total; code++ {
+			var ops []cuOp
+			c := code
+			for j := 0; j < length; j++ {
+				ops = append(ops, alphabet[c%len(alphabet)])
+				c /= len(alphabet)
+			}
+			runCU(r, m, true, 1, ops, true)
+			n++
+		}
+	}
+	r.Distribution["custom.exhaustive_len4"] += n
 }
 
 func runCU(r *hlib.Result, m *hlib.Model, versioned bool, capn int, ops []cuOp, record bool) (fail string) {
@@ -108,7 +161,7 @@ func runCU(r *hlib.Result, m *hlib.Model, versioned bool, capn int, ops []cuOp, 
 	nextVer := 0
 	for i := range cur {
 		nextVer++
-		cur[i] = cuConf{upd: 1000, ver: nextVer, doms: []string{domains[i]}, enabled: true}
+		cur[i] = cuConf{upd: cuBase, ver: nextVer, doms: []string{domains[i]}, enabled: true}
 		prev[i] = cur[i]
 	}
 	lines := []string{fmt.Sprintf("cu new %d", capn)}
@@ -124,7 +177,7 @@ func runCU(r *hlib.Result, m *hlib.Model, versioned bool, capn int, ops []cuOp, 
 		if op.kind == "update" {
 			prev[op.prof] = cur[op.prof]
 			nextVer++
-			cur[op.prof] = cuConf{upd: cur[op.prof].upd + int64(op.bump), ver: nextVer, doms: op.doms, enabled: op.enabled}
+			cur[op.prof] = cuConf{upd: cur[op.prof].upd + op.bump, ver: nextVer, doms: op.doms, enabled: op.enabled}
 			nUpd++
 
 			continue
@@ -281,7 +334,7 @@ func runFull(r *hlib.Result, rng *rand.Rand, caseNo, length int) {
 	nextCV := 0
 	for i := range w.custom {
 		nextCV++
-		w.custom[i] = cuConf{upd: 1000, ver: nextCV, doms: []string{domains[rng.IntN(len(domains))]}, enabled: i != 2}
+		w.custom[i] = cuConf{upd: cuBase, ver: nextCV, doms: []string{domains[rng.IntN(len(domains))]}, enabled: i != 2}
 	}
 	w.writeAll(w.a)
 	w.writeAll(w.b)
@@ -337,7 +390,7 @@ func runFull(r *hlib.Result, rng *rand.Rand, caseNo, length int) {
 		case x < 6:
 			i := rng.IntN(3)
 			nextCV++
-			w.custom[i] = cuConf{upd: w.custom[i].upd + 1, ver: nextCV, doms: []string{domains[rng.IntN(len(domains))]}, enabled: rng.IntN(5) != 0}
+			w.custom[i] = cuConf{upd: w.custom[i].upd + cuUnits[rng.IntN(len(cuUnits))], ver: nextCV, doms: []string{domains[rng.IntN(len(domains))]}, enabled: rng.IntN(5) != 0}
 			log = append(log, fmt.Sprintf("update-custom c%d v%d %v", i, nextCV, w.custom[i].doms))
 		default:
 			i := rng.IntN(3)
@@ -506,6 +559,15 @@ func concurrentRuleList(r *hlib.Result, rng *rand.Rand, round int, mode string) 
 				hi := started.Load()
 				n++
 				tok := resTok(res)
+				if isPanic(resCanon(res)) {
+					mu.Lock()
+					if bad == "" {
+						bad = fmt.Sprintf("%s: the filter panicked: %s", host, resCanon(res))
+					}
+					mu.Unlock()
+
+					continue
+				}
 				parts := strings.Split(tok, ":")
 				v := int64(-1)
 				if len(parts) == 3 {
